@@ -217,4 +217,118 @@ theorem foldl_extendedMuxes (xs : List ExtendedMux) (ast : File) :
   | nil => simp
   | cons x xs ih => simp [List.foldl, ih, List.append_assoc]
 
+/-! ## the section lists, in the order of `writeFile` -/
+
+theorem runsF_slices (fl : String → Bool) (hfl : ∀ s, fl s = true → acceptedFloatText s = true)
+    (hex : Bool) (f : File)
+    (h_valueTables : ∀ x ∈ f.valueTables, valueTableOK x = true)
+    (h_messages : ∀ x ∈ f.messages, messageOK fl x = true)
+    (h_messageTransmitters : ∀ x ∈ f.messageTransmitters, messageTransmitterOK x = true)
+    (h_envVars : ∀ x ∈ f.envVars, envVarOK fl x = true)
+    (h_envVarDatas : ∀ x ∈ f.envVarDatas, envVarDataOK x = true)
+    (h_signalTypes : ∀ x ∈ f.signalTypes, signalTypeOK fl x = true)
+    (h_comments : ∀ x ∈ f.comments, commentOK x = true)
+    (h_attributes : ∀ x ∈ f.attributes, attributeOK fl x = true)
+    (h_attributeDefaults : ∀ x ∈ f.attributeDefaults, attributeDefaultOK fl x = true)
+    (h_attributeValues : ∀ x ∈ f.attributeValues, attributeValueOK fl x = true)
+    (h_valueEncodings : ∀ x ∈ f.valueEncodings, valueEncodingOK x = true)
+    (h_signalTypeRefs : ∀ x ∈ f.signalTypeRefs, signalTypeRefOK x = true)
+    (h_signalGroups : ∀ x ∈ f.signalGroups, signalGroupOK x = true)
+    (h_signalExtValueTypes : ∀ x ∈ f.signalExtValueTypes, signalExtValueTypeOK x = true)
+    (h_extendedMuxes : ∀ x ∈ f.extendedMuxes, extendedMuxOK x = true)
+    (pf : PFlags) (ast : File) :
+    RunsF hex pf ast
+      (writeSlice writeValueTable f.valueTables ++
+      (writeSlice writeMessage f.messages ++
+      (writeSlice writeMessageTransmitter f.messageTransmitters ++
+      (writeSlice writeEnvVar f.envVars ++
+      (writeSlice writeEnvVarData f.envVarDatas ++
+      (writeSlice writeSignalType f.signalTypes ++
+      (writeSlice writeComment f.comments ++
+      (writeSlice (writeAttribute hex) f.attributes ++
+      (writeSlice (writeAttributeDefault hex) f.attributeDefaults ++
+      (writeSlice (writeAttributeValue hex) f.attributeValues ++
+      (writeSlice writeValueEncoding f.valueEncodings ++
+      (writeSlice writeSignalTypeRef f.signalTypeRefs ++
+      (writeSlice writeSignalGroup f.signalGroups ++
+      (writeSlice writeSignalExtValueType f.signalExtValueTypes ++
+      (writeSlice writeExtendedMux f.extendedMuxes ++ [Token.eof])))))))))))))))
+      { ast with
+        valueTables := ast.valueTables ++ f.valueTables,
+        messages := ast.messages ++ f.messages,
+        messageTransmitters := ast.messageTransmitters ++ f.messageTransmitters,
+        envVars := ast.envVars ++ f.envVars,
+        envVarDatas := ast.envVarDatas ++ f.envVarDatas,
+        signalTypes := ast.signalTypes ++ f.signalTypes,
+        comments := ast.comments ++ f.comments,
+        attributes := ast.attributes ++ f.attributes,
+        attributeDefaults := ast.attributeDefaults ++ f.attributeDefaults.map (normAttributeDefault hex),
+        attributeValues := ast.attributeValues ++ f.attributeValues.map (normAttributeValue hex),
+        valueEncodings := ast.valueEncodings ++ f.valueEncodings,
+        signalTypeRefs := ast.signalTypeRefs ++ f.signalTypeRefs,
+        signalGroups := ast.signalGroups ++ f.signalGroups,
+        signalExtValueTypes := ast.signalExtValueTypes ++ f.signalExtValueTypes,
+        extendedMuxes := ast.extendedMuxes ++ f.extendedMuxes } := by
+  refine runsF_slice hex writeValueTable (fun a x => { a with valueTables := a.valueTables ++ [x] }) (fun x => x)
+    (fun x => valueTableOK x = true) (fun x rest => ⟨_, _, by decide, rfl⟩)
+    (fun x hx pf ast rest hrest => step_valueTable hex pf ast x rest hx) f.valueTables h_valueTables pf _ _ _ ?_
+  simp only [foldl_valueTables]
+  refine runsF_slice hex writeMessage (fun a x => { a with messages := a.messages ++ [x] }) (fun x => x)
+    (fun x => messageOK fl x = true) (fun x rest => ⟨_, _, by decide, rfl⟩)
+    (fun x hx pf ast rest hrest => step_message fl hfl hex pf ast x rest hx hrest) f.messages h_messages pf _ _ _ ?_
+  simp only [foldl_messages]
+  refine runsF_slice hex writeMessageTransmitter (fun a x => { a with messageTransmitters := a.messageTransmitters ++ [x] }) (fun x => x)
+    (fun x => messageTransmitterOK x = true) (fun x rest => ⟨_, _, by decide, rfl⟩)
+    (fun x hx pf ast rest hrest => step_messageTransmitter hex pf ast x rest hx) f.messageTransmitters h_messageTransmitters pf _ _ _ ?_
+  simp only [foldl_messageTransmitters]
+  refine runsF_slice hex writeEnvVar (fun a x => { a with envVars := a.envVars ++ [x] }) (fun x => x)
+    (fun x => envVarOK fl x = true) (fun x rest => ⟨_, _, by decide, rfl⟩)
+    (fun x hx pf ast rest hrest => step_envVar fl hfl hex pf ast x rest hx) f.envVars h_envVars pf _ _ _ ?_
+  simp only [foldl_envVars]
+  refine runsF_slice hex writeEnvVarData (fun a x => { a with envVarDatas := a.envVarDatas ++ [x] }) (fun x => x)
+    (fun x => envVarDataOK x = true) (fun x rest => ⟨_, _, by decide, rfl⟩)
+    (fun x hx pf ast rest hrest => step_envVarData hex pf ast x rest hx) f.envVarDatas h_envVarDatas pf _ _ _ ?_
+  simp only [foldl_envVarDatas]
+  refine runsF_slice hex writeSignalType (fun a x => { a with signalTypes := a.signalTypes ++ [x] }) (fun x => x)
+    (fun x => signalTypeOK fl x = true) (fun x rest => ⟨_, _, by decide, rfl⟩)
+    (fun x hx pf ast rest hrest => step_signalType fl hfl hex pf ast x rest hx) f.signalTypes h_signalTypes pf _ _ _ ?_
+  simp only [foldl_signalTypes]
+  refine runsF_slice hex writeComment (fun a x => { a with comments := a.comments ++ [x] }) (fun x => x)
+    (fun x => commentOK x = true) (fun x rest => ⟨_, _, by decide, rfl⟩)
+    (fun x hx pf ast rest hrest => step_comment hex pf ast x rest hx) f.comments h_comments pf _ _ _ ?_
+  simp only [foldl_comments]
+  refine runsF_slice hex (writeAttribute hex) (fun a x => { a with attributes := a.attributes ++ [x] }) (fun x => x)
+    (fun x => attributeOK fl x = true) (fun x rest => ⟨_, _, by decide, rfl⟩)
+    (fun x hx pf ast rest hrest => step_attribute fl hfl hex pf ast x rest hx) f.attributes h_attributes pf _ _ _ ?_
+  simp only [foldl_attributes]
+  refine runsF_slice hex (writeAttributeDefault hex) (fun a x => { a with attributeDefaults := a.attributeDefaults ++ [x] }) (normAttributeDefault hex)
+    (fun x => attributeDefaultOK fl x = true) (fun x rest => ⟨_, _, by decide, rfl⟩)
+    (fun x hx pf ast rest hrest => step_attributeDefault fl hfl hex pf ast x rest hx) f.attributeDefaults h_attributeDefaults pf _ _ _ ?_
+  simp only [foldl_attributeDefaults]
+  refine runsF_slice hex (writeAttributeValue hex) (fun a x => { a with attributeValues := a.attributeValues ++ [x] }) (normAttributeValue hex)
+    (fun x => attributeValueOK fl x = true) (fun x rest => ⟨_, _, by decide, rfl⟩)
+    (fun x hx pf ast rest hrest => step_attributeValue fl hfl hex pf ast x rest hx) f.attributeValues h_attributeValues pf _ _ _ ?_
+  simp only [foldl_attributeValues]
+  refine runsF_slice hex writeValueEncoding (fun a x => { a with valueEncodings := a.valueEncodings ++ [x] }) (fun x => x)
+    (fun x => valueEncodingOK x = true) (fun x rest => ⟨_, _, by decide, rfl⟩)
+    (fun x hx pf ast rest hrest => step_valueEncoding hex pf ast x rest hx) f.valueEncodings h_valueEncodings pf _ _ _ ?_
+  simp only [foldl_valueEncodings]
+  refine runsF_slice hex writeSignalTypeRef (fun a x => { a with signalTypeRefs := a.signalTypeRefs ++ [x] }) (fun x => x)
+    (fun x => signalTypeRefOK x = true) (fun x rest => ⟨_, _, by decide, rfl⟩)
+    (fun x hx pf ast rest hrest => step_signalTypeRef hex pf ast x rest hx) f.signalTypeRefs h_signalTypeRefs pf _ _ _ ?_
+  simp only [foldl_signalTypeRefs]
+  refine runsF_slice hex writeSignalGroup (fun a x => { a with signalGroups := a.signalGroups ++ [x] }) (fun x => x)
+    (fun x => signalGroupOK x = true) (fun x rest => ⟨_, _, by decide, rfl⟩)
+    (fun x hx pf ast rest hrest => step_signalGroup hex pf ast x rest hx) f.signalGroups h_signalGroups pf _ _ _ ?_
+  simp only [foldl_signalGroups]
+  refine runsF_slice hex writeSignalExtValueType (fun a x => { a with signalExtValueTypes := a.signalExtValueTypes ++ [x] }) (fun x => x)
+    (fun x => signalExtValueTypeOK x = true) (fun x rest => ⟨_, _, by decide, rfl⟩)
+    (fun x hx pf ast rest hrest => step_signalExtValueType hex pf ast x rest hx) f.signalExtValueTypes h_signalExtValueTypes pf _ _ _ ?_
+  simp only [foldl_signalExtValueTypes]
+  refine runsF_slice hex writeExtendedMux (fun a x => { a with extendedMuxes := a.extendedMuxes ++ [x] }) (fun x => x)
+    (fun x => extendedMuxOK x = true) (fun x rest => ⟨_, _, by decide, rfl⟩)
+    (fun x hx pf ast rest hrest => step_extendedMux hex pf ast x rest hx) f.extendedMuxes h_extendedMuxes pf _ _ _ ?_
+  simp only [foldl_extendedMuxes]
+  exact RunsF.eof rfl
+
 end Acme.Dbc
